@@ -60,17 +60,23 @@ Section LinDef.
     (forall e', In e' l2 -> ~ e_res e' < e_inv e) -> (forall e', In e' l1 -> ~ e_res e' < e_inv e).
   Proof. intros HP H e' Hin. apply H. eapply Permutation_in; eauto. Qed.
 
+  Lemma ex_lazy_eq {A} (f : A -> bool) l : ex_lazy f l = existsb f l.
+  Proof. induction l as [|a l IH]; cbn; [reflexivity|]. destruct (f a); [reflexivity|exact IH]. Qed.
+  Lemma all_lazy_eq {A} (f : A -> bool) l : all_lazy f l = forallb f l.
+  Proof. induction l as [|a l IH]; cbn; [reflexivity|]. destruct (f a); [exact IH|reflexivity]. Qed.
+
   Lemma lin_sound : forall fuel s pending, lin step fuel s pending = true ->
     exists l, Permutation l pending /\ order_ok l /\ spec_run s l = true.
   Proof.
     induction fuel as [|f IH]; intros s pending H; cbn [lin] in H.
     - destruct pending; [|discriminate]. exists []. cbn. auto.
     - destruct pending as [|p0 pr] eqn:Hp; [exists []; cbn; auto|]. rewrite <- Hp in *. clear Hp p0 pr.
-      apply existsb_exists in H. destruct H as (k & _ & Hk).
+      rewrite ex_lazy_eq in H. apply existsb_exists in H. destruct H as (k & _ & Hk).
       destruct (nth_error pending k) as [e|] eqn:Hn; [|discriminate].
-      apply andb_true_iff in Hk. destruct Hk as [Ho Hr].
+      rewrite all_lazy_eq in Hk.
+      destruct (forallb (fun e' => negb (e_res e' <? e_inv e)) (remove_at k pending)) eqn:Ho; [|discriminate].
       destruct (step s (e_op e)) as [s' r] eqn:Hs.
-      apply andb_true_iff in Hr. destruct Hr as [Hret Hl].
+      destruct (ret_eqb r (e_ret e)) eqn:Hret; [|discriminate]. rename Hk into Hl.
       destruct (IH _ _ Hl) as (l & HP & Hok & Hrun).
       exists (e :: l). splits.
       + etransitivity; [constructor; exact HP|]. apply remove_at_perm. exact Hn.
@@ -86,14 +92,15 @@ Section LinDef.
     - destruct (perm_cons_remove_at e l pending HP) as (k & Hk & HP').
       pose proof (remove_at_length pending k e Hk) as Hlen. rewrite Hlen. cbn [lin].
       destruct pending as [|p0 pr] eqn:Hp; [destruct k; discriminate|]. rewrite <- Hp in *.
-      apply existsb_exists. exists k. split.
+      rewrite ex_lazy_eq. apply existsb_exists. exists k. split.
       { apply in_seq. split; [lia|]. cbn. apply nth_error_Some. congruence. }
       rewrite Hk. cbn in Hok, Hrun. destruct Hok as [Ho Hok].
       destruct (step s (e_op e)) as [s' r] eqn:Hs.
       apply andb_true_iff in Hrun. destruct Hrun as [Hret Hrun].
-      apply andb_true_iff. split.
-      + apply forallb_order. eapply order_ok_perm_tail; [symmetry; exact HP'|exact Ho].
-      + rewrite Hret. cbn. specialize (IH s' _ HP' Hok Hrun). exact IH.
+      rewrite all_lazy_eq.
+      assert (Hf : forallb (fun e' => negb (e_res e' <? e_inv e)) (remove_at k pending) = true).
+      { apply forallb_order. eapply order_ok_perm_tail; [symmetry; exact HP'|exact Ho]. }
+      rewrite Hf, Hret. specialize (IH s' _ HP' Hok Hrun). exact IH.
   Qed.
 End LinDef.
 
@@ -126,7 +133,7 @@ Proof.
   - specialize (IH _ H). lia.
 Qed.
 
-Lemma ksize_compile o : ksize (compile o) < 16.
+Lemma ksize_compile o : ksize (compile o) < 20.
 Proof. destruct o as [[|] n i|n|i c|i|c|h]; cbn; lia. Qed.
 
 Lemma mstep_ksize s m ms : ksize (snd (mstep s m ms)) < ksize (m :: ms).
@@ -148,7 +155,7 @@ Proof.
   unfold csize.
   destruct (cur t) as [[[o inv] ms]|] eqn:Hc.
   - destruct ms as [|m ms]; [discriminate|].
-    assert (Ht : tsize t = ksize (m :: ms) + 16 * length (todo t)) by (unfold tsize; rewrite Hc; reflexivity).
+    assert (Ht : tsize t = ksize (m :: ms) + 20 * length (todo t)) by (unfold tsize; rewrite Hc; reflexivity).
     assert (Hgen : forall s' ms', (s', ms') = mstep (st c) m ms ->
               list_sum (map tsize (replace_nth k {| todo := todo t; cur := Some (o, inv, ms') |} (thrs c))) < list_sum (map tsize (thrs c))).
     { intros s' ms' E. apply (sum_replace_lt k _ _ t Hn).
@@ -347,6 +354,7 @@ Definition op_fresh (seen : list inst) (o : op) : Prop :=
 
 Record Rseq (s : impl) (a : spec) (seen : list inst) : Prop := {
   rs_rt : rt_closed s = closed_rt a;
+  rs_eng : eng_closed s = closed_rt a;
   rs_nmap : nmap s = if closed_rt a then None else Some (names a);
   rs_closed_empty : closed_rt a = true -> names a = [] /\ opened a = [];
   rs_mlist : mlist s = opened a;
@@ -390,7 +398,7 @@ Qed.
 Definition seq_ok s a seen o :=
   exists s' a' r, run_op s o = (s', Some r) /\ spec_step a o = (a', r) /\ Rseq s' a' (seen_after seen o).
 
-Ltac fields := cbn [nmap mlist closedw iname rt_closed notif attached res_log notified registered
+Ltac fields := cbn [nmap mlist closedw iname rt_closed eng_closed notif attached res_log notified registered
                     names opened exits closed_rt set_closedw fst snd].
 
 Lemma seq_look s a seen n : Rseq s a seen -> seq_ok s a seen (OLook n).
@@ -411,7 +419,9 @@ Qed.
 Lemma seq_compile s a seen h : Rseq s a seen -> seq_ok s a seen (OCompile h).
 Proof.
   intros R. unfold seq_ok, run_op. cbn [compile spec_step seen_after]. estep. cbn [mstep].
-  rewrite (rs_rt _ _ _ R). destruct (closed_rt a); fields; estep; do 3 eexists; splits; try reflexivity; exact R.
+  rewrite (rs_rt _ _ _ R). destruct (closed_rt a) eqn:Hc; fields; estep.
+  - do 3 eexists; splits; try reflexivity; exact R.
+  - cbn [mstep]. rewrite (rs_nmap _ _ _ R), Hc. fields. estep. do 3 eexists; splits; try reflexivity; exact R.
 Qed.
 
 Lemma seq_rtclose s a seen c : Rseq s a seen -> seq_ok s a seen (ORtClose c).
@@ -419,13 +429,13 @@ Proof.
   intros R. unfold seq_ok, run_op. cbn [compile spec_step seen_after]. estep. cbn [mstep].
   rewrite (rs_rt _ _ _ R). destruct (closed_rt a) eqn:Hc; fields; estep.
   - do 3 eexists; splits; try reflexivity; exact R.
-  - cbn [mstep]. fields. estep.
+  - cbn [mstep]. fields. estep. cbn [mstep]. fields. estep.
     do 3 eexists; splits; try reflexivity.
     assert (Hlive : dedup (filter (fun i => negb (is_closed s i)) (mlist s)) = opened a).
     { rewrite (rs_mlist _ _ _ R). rewrite filter_all; [apply dedup_nodup; exact (rs_open_nd _ _ _ R)|]. intros x Hx. unfold is_closed. rewrite (rs_closedw _ _ _ R).
       destruct (rs_open _ _ _ R x Hx) as [-> _]. reflexivity. }
     unfold is_closed in Hlive |- *. fields. rewrite Hlive.
-    destruct R as [rs_rt rs_nmap rs_closed_empty rs_mlist rs_closedw rs_res rs_nd_exits rs_keys rs_vals rs_names rs_open_nd rs_open rs_built rs_seen]. constructor; fields; auto; try (constructor; fail); try (intros ? ? []; fail); try (intros ? []; fail).
+    destruct R as [rs_rt rs_eng rs_nmap rs_closed_empty rs_mlist rs_closedw rs_res rs_nd_exits rs_keys rs_vals rs_names rs_open_nd rs_open rs_built rs_seen]. constructor; fields; auto; try (constructor; fail); try (intros ? ? []; fail); try (intros ? []; fail).
     + congruence.
     + rewrite map_app, map_map. cbn [fst]. rewrite map_id. congruence.
     + rewrite map_app, map_map. cbn [fst]. rewrite map_id. apply NoDup_app_intro; auto.
@@ -468,7 +478,7 @@ Proof.
         destruct (Nat.eqb_spec j i); [|reflexivity]. subst j. apply lookup_some_in in Hj.
         apply (rs_names _ _ _ R) in Hj. tauto. }
     rewrite Hnm. do 3 eexists; splits; try reflexivity.
-    destruct R as [rs_rt rs_nmap rs_closed_empty rs_mlist rs_closedw rs_res rs_nd_exits rs_keys rs_vals rs_names rs_open_nd rs_open rs_built rs_seen]. constructor; fields; auto.
+    destruct R as [rs_rt rs_eng rs_nmap rs_closed_empty rs_mlist rs_closedw rs_res rs_nd_exits rs_keys rs_vals rs_names rs_open_nd rs_open rs_built rs_seen]. constructor; fields; auto.
     + intros Hc. destruct (rs_closed_empty Hc) as [-> ->]. split; reflexivity.
     + congruence.
     + cbn [map fst]. congruence.
@@ -488,7 +498,7 @@ Proof.
       apply rs_seen. destruct H as [H|[H|H]]; auto. apply in_remove in H. tauto.
 Qed.
 Definition after_fail (s1 : impl) (i : inst) : impl :=
-  {| nmap := nmap s1; mlist := remove i (mlist s1); closedw := (i, 0) :: closedw s1; iname := iname s1; rt_closed := rt_closed s1;
+  {| nmap := nmap s1; mlist := remove i (mlist s1); closedw := (i, 0) :: closedw s1; iname := iname s1; rt_closed := rt_closed s1; eng_closed := eng_closed s1;
      notif := remove i (notif s1); attached := attached s1; res_log := i :: res_log s1;
      notified := (if mem i (notif s1) then i :: notified s1 else notified s1); registered := registered s1 |}.
 
@@ -514,15 +524,16 @@ Proof.
   assert (Hib : ~ In i (map fst (iname s))) by (intros H; apply Hfresh; apply (rs_seen _ _ _ R); auto).
   assert (Hrt : rt_closed s = false) by (rewrite (rs_rt _ _ _ R); exact Hc).
   assert (Hnm : nmap s = Some (names a)) by (rewrite (rs_nmap _ _ _ R), Hc; reflexivity).
+  assert (Heng : eng_closed s = false) by (rewrite (rs_eng _ _ _ R); exact Hc).
   change (9 + f) with (S (S (S (S (S (S (S (S (S f))))))))).
-  estep. cbn [mstep]. rewrite Hrt. fields. estep. cbn [mstep]. fields. estep. cbn [mstep]. fields. rewrite Hnm.
+  estep. cbn [mstep]. rewrite Hrt. fields. estep. cbn [mstep]. rewrite Heng. fields. estep. cbn [mstep]. fields. rewrite Hnm.
   destruct (negb (n =? 0) && is_some (lookup n (names a))) eqn:Hdup; fields.
   - rewrite (exec_close_fail _ _ i RErrDup n).
     + do 3 eexists; splits; try reflexivity. unfold after_fail. fields.
       rewrite (rs_mlist _ _ _ R), (remove_notin _ _ Hio).
       assert (Hne : forall i0, In i0 (opened a) -> (i0 =? i) = false).
       { intros i0 H0. apply Nat.eqb_neq. intros ->. exact (Hio H0). }
-      destruct R as [rs_rt rs_nmap rs_closed_empty rs_mlist rs_closedw rs_res rs_nd_exits rs_keys rs_vals rs_names rs_open_nd rs_open rs_built rs_seen]. constructor; fields; auto.
+      destruct R as [rs_rt rs_eng rs_nmap rs_closed_empty rs_mlist rs_closedw rs_res rs_nd_exits rs_keys rs_vals rs_names rs_open_nd rs_open rs_built rs_seen]. constructor; fields; auto.
       * discriminate.
       * congruence.
       * cbn [map fst]. congruence.
@@ -550,7 +561,7 @@ Proof.
     assert (Hkey : (n =? 0) = false -> ~ In n (map fst (names a))).
     { intros Hn0. rewrite Hn0 in Hdup. cbn [negb andb] in Hdup. apply lookup_none_notin.
       destruct (lookup n (names a)); [discriminate|reflexivity]. }
-    destruct R as [rs_rt rs_nmap rs_closed_empty rs_mlist rs_closedw rs_res rs_nd_exits rs_keys rs_vals rs_names rs_open_nd rs_open rs_built rs_seen]. constructor; fields; auto.
+    destruct R as [rs_rt rs_eng rs_nmap rs_closed_empty rs_mlist rs_closedw rs_res rs_nd_exits rs_keys rs_vals rs_names rs_open_nd rs_open rs_built rs_seen]. constructor; fields; auto.
     + discriminate.
     + congruence.
     + destruct (n =? 0) eqn:Hn0; [exact rs_keys|]. cbn [map fst]. constructor; auto.
@@ -578,14 +589,15 @@ Lemma seq_inst s a seen h n i : Rseq s a seen -> ~ In i seen -> seq_ok s a seen 
 Proof.
   intros R Hfresh. unfold seq_ok, run_op. cbn [seen_after].
   destruct (closed_rt a) eqn:Hc.
-  { assert (E : exec 12 s (compile (OInst h n i)) = (s, Some RErrClosed)).
+  { assert (E : exec 14 s (compile (OInst h n i)) = (s, Some RErrClosed)).
     { destruct h; cbn [compile app]; estep; cbn [mstep]; rewrite (rs_rt _ _ _ R), Hc; fields; estep; reflexivity. }
     rewrite E. cbn [spec_step]. rewrite Hc. do 3 eexists; splits; try reflexivity.
     eapply Rseq_mono; [exact R|intros x Hx; right; exact Hx]. }
   assert (Hrt : rt_closed s = false) by (rewrite (rs_rt _ _ _ R); exact Hc).
   destruct h; cbn [compile app].
-  - estep. cbn [mstep]. rewrite Hrt. fields. exact (inst_tail s a seen true n i 2 R Hfresh Hc).
-  - exact (inst_tail s a seen false n i 3 R Hfresh Hc).
+  - estep. cbn [mstep]. rewrite Hrt. fields. estep. cbn [mstep]. rewrite (rs_nmap _ _ _ R), Hc. fields.
+    exact (inst_tail s a seen true n i 3 R Hfresh Hc).
+  - exact (inst_tail s a seen false n i 5 R Hfresh Hc).
 Qed.
 
 Lemma seq_step s a seen o : Rseq s a seen -> op_fresh seen o -> seq_ok s a seen o.
@@ -662,7 +674,7 @@ Fixpoint wfk (ms : list micro) : Prop :=
   match ms with
   | [] => True
   | MCas i _ :: k => exists e, k = [MDelete i; MRes i; MRet e]
-  | MChkRt :: k | MRegister _ _ :: k | MRtCas _ :: k | MLookup _ :: k | MLoad _ :: k | MRet _ :: k =>
+  | MChkRt :: k | MTypeIDs :: k | MBuild _ _ :: k | MRegister _ _ :: k | MRtCas _ :: k | MLookup _ :: k | MLoad _ :: k | MRet _ :: k =>
       (forall j, pend j k = 0) /\ wfk k
   | _ :: k => wfk k
   end.
@@ -708,7 +720,9 @@ Lemma mstep_balance s m k : is_ret m = false -> wfk (m :: k) ->
 Proof.
   intros Hr Hw. destruct m; try discriminate Hr; cbn [mstep]; cbn [wfk] in Hw.
   - (* MChkRt *) destruct Hw as [Hp Hw]. destruct (rt_closed s); cbn [fst snd]; (split; [cbn; auto|]); intros i; cbn [pend]; rewrite ?Hp; cbn; lia.
-  - (* MBuild *) cbn [fst snd res_log]. split; [exact Hw|]. intros j. unfold is_closed. cbn [closedw pend]. lia.
+  - (* MTypeIDs *) destruct Hw as [Hp Hw]. destruct (nmap s); cbn [fst snd]; (split; [cbn; auto|]); intros j; cbn [pend]; rewrite ?Hp; cbn; lia.
+  - (* MBuild *) destruct Hw as [Hp Hw]. destruct (eng_closed s); cbn [fst snd res_log]; (split; [cbn; auto|]); intros j; cbn [pend]; rewrite ?Hp;
+      unfold is_closed; cbn [closedw]; lia.
   - (* MRegister *) destruct Hw as [Hp Hw].
     assert (Hf : forall e, wfk (close_fail i e)) by (intros e; cbn; eexists; reflexivity).
     destruct (nmap s) as [m|]; [destruct (negb (n =? 0) && is_some (lookup n m))|]; cbn [fst snd res_log];
@@ -732,6 +746,7 @@ Proof.
     + apply mem_in in Hm. unfold live in Hm. apply (proj1 (dedup_in _ _)) in Hm. apply filter_In in Hm. destruct Hm as [_ Hm]. apply negb_true_iff in Hm.
       rewrite Hm. cbn. lia.
     + lia.
+  - (* MEngClose *) cbn [fst snd res_log]. split; [exact Hw|]. intros j. unfold is_closed. cbn [closedw pend]. lia.
 Qed.
 
 Definition invB (s : impl) : Prop := forall i, count i (notified s) <= count i (res_log s).
@@ -1169,7 +1184,7 @@ Proof. vm_compute. reflexivity. Qed.
 
 (* ---- the same window in Runtime.Close: the closed flag is set before the store is swept *)
 Definition rtwin_prog : list (list op) := [[ORtClose 0]; [OCompile false; OLook 1]].
-Definition rtwin_sched : list nat := [0;0; 1;1;1; 1;1;1; 0;0].
+Definition rtwin_sched : list nat := [0;0; 1;1;1; 1;1;1; 0;0;0].
 
 Lemma rt_window_witness :
   exists c, run_sched false (init impl1 rtwin_prog) rtwin_sched = Some c /\ finished c = true /\
@@ -1218,7 +1233,8 @@ Definition progs111 : list (list (list op)) :=
      (seq 0 6)) (seq 0 6)) (seq 0 6).
 Definition bounded_progs : list (list (list op)) := progs21 ++ progs111.
 
-Definition lin_ok (c : config) : bool := finished c && lin_check spec1 (hist c).
+Definition has_panic (h : list ev) : bool := existsb (fun e => ret_eqb (e_ret e) RPanic) h.
+Definition lin_ok (c : config) : bool := finished c && (if has_panic (hist c) then true else lin_check spec1 (hist c)).
 Definition prog_ok (p : list (list op)) : bool :=
   check_all true lin_ok (S (csize (init impl1 p))) (init impl1 p).
 
@@ -1227,11 +1243,29 @@ Proof. vm_cast_no_check (eq_refl true). Qed.
 
 Lemma linearizable_atomic_bounded p sched c :
   In p bounded_progs -> run_sched true (init impl1 p) sched = Some c -> finished c = true ->
-  linearizable spec1 (hist c).
+  has_panic (hist c) = true \/ linearizable spec1 (hist c).
 Proof.
   intros Hin Hr Hf. pose proof bounded_progs_checked as H. rewrite forallb_forall in H. specialize (H p Hin).
   unfold prog_ok in H. pose proof (check_all_run true lin_ok _ sched c H Hr Hf) as Hok.
-  unfold lin_ok in Hok. apply andb_true_iff in Hok. apply lin_check_sound. tauto.
+  unfold lin_ok in Hok. apply andb_true_iff in Hok. destruct Hok as [_ Hok].
+  destruct (has_panic (hist c)); [left; reflexivity|right; apply lin_check_sound; exact Hok].
+Qed.
+
+(* ---- a compile that passed the closed-runtime check panics on the nil type-id map when Runtime.Close sweeps in between
+   (the schedule is close-atomic) *)
+Definition cpanic_prog : list (list op) := [[OCompile true]; [ORtClose 0]].
+Definition cpanic_sched : list nat := [0;0; 1;1;1;1;1; 0;0].
+
+Lemma compile_panic_witness :
+  exists c, run_sched true (init impl1 cpanic_prog) cpanic_sched = Some c /\ finished c = true /\
+            map e_ret (filter (fun e => e_thr e =? 0) (hist c)) = [RPanic] /\ ~ linearizable spec1 (hist c).
+Proof.
+  destruct (run_sched true (init impl1 cpanic_prog) cpanic_sched) as [c|] eqn:E; [|vm_compute in E; discriminate].
+  exists c. split; [reflexivity|].
+  assert (Hc : Some c = run_sched true (init impl1 cpanic_prog) cpanic_sched) by (symmetry; exact E).
+  vm_compute in Hc. inversion Hc; subst c. clear Hc E.
+  splits; try (vm_compute; reflexivity).
+  intros H. apply lin_check_complete in H. vm_compute in H. discriminate.
 Qed.
 
 (* non-vacuity: the F10 program itself is in the set (its close-atomic schedules all linearize, its other schedules do not),
